@@ -246,5 +246,26 @@ PROPS = {
                         "tail bits clear, every newline bit is a marker bit, < 2^32 markers)",
                         "Dsv/DsvRef::row and rows() wrappers (two-line compositions of goto_row / DsvRows::new) are not extracted"],
     },
+    "C32": {
+        "level": "proof",
+        "explanation": "Verus proves on the extracted text of SimpleJsonIndex, for documents of every length: ib_rank1 / ib_select1 and "
+                       "through them structural_index and structural_pos against the bit-level rank/select definitions of the interest "
+                       "bits (the ordinal of the structural character at a position, the position of the k-th structural character; each "
+                       "the inverse of the other); find_close(json, pos) == the first later structural position at which the bracket depth, "
+                       "counted over the structural characters after the open, reaches -1, None when it never does (composition of "
+                       "structural_index, BalancedParens::find_close and structural_pos, via a lemma that the BP excess over whole pairs is "
+                       "twice the bracket depth of the text range and that the 11/00/01 pair encoding can only reach zero on the second bit "
+                       "of a close pair); skip_value == the byte after the matching close / after the closing unescaped quote / after an "
+                       "exactly spelled literal / after the maximal number-character run, None otherwise. The first clause of the property "
+                       "(the index lists exactly the bracket, comma and colon bytes outside strings, in order) is the bit layer proved for "
+                       "the builders under C05 (units c05_simple, c05_simple_sse2, run again by this check).",
+        "trusted_base": COMMON_TRUST + ["Verus 0.2026.09.13 + Z3", "seam R4: BalancedParens::find_close contract (unit c04_find), scan_select (c01_scan), select_in_word (Kani C02)"],
+        "assumptions": ["simple_wf: interest bits mark structural characters and BP pair j is 11/00/01 for the j-th structural character being an "
+                        "open/close/delimiter -- what the C05 builder proofs establish in fold form; the step from the fold form to this "
+                        "per-character form is argued, not machine-checked",
+                        "validity of the document is not used: the statements hold for every byte string and coincide with the JSON reading "
+                        "of 'matching bracket' and 'value extent' on valid documents (that coincidence relies on the RFC 8259 grammar and is not proved)",
+                        "Children / StructuralPositions iterators and from_parts/build plumbing not extracted; W monomorphised to Vec<u64>"],
+    },
 }
 FIX_COMMITS = ["2cec8d3", "1d237d0", "a3cef7a", "5751290"]
